@@ -261,6 +261,13 @@ func (rs *reqState) decodeResponse(resp Response) *clientView {
 					return cv
 				}
 			case ws.OpClose:
+				if len(f.Payload) > 125 {
+					// RFC 6455, 5.5: a control frame's payload is 125 bytes at
+					// most; a conformant client fails the connection here and
+					// never learns the status
+					cv.Err = fmt.Errorf("close frame with a payload of %d bytes: control frames carry 125 at most (status code and up to 123 bytes of reason)", len(f.Payload))
+					return cv
+				}
 				c := &wsClose{Empty: len(f.Payload) == 0}
 				if len(f.Payload) >= 2 {
 					c.Code = ws.StatusCode(uint16(f.Payload[0])<<8 | uint16(f.Payload[1]))
